@@ -106,41 +106,54 @@ struct Array {
     }
 
     void operator+=(Array &&src) {
+        // Detach the source first: it can be held by an element of this array,
+        // and growing relocates the elements.
+        Type_T     *src_storage  = src.Storage();
+        const SizeT src_size     = src.Size();
+        const SizeT src_capacity = src.Capacity();
+
+        src.clearStorage();
+        src.setSize(0);
+        src.setCapacity(0);
+
         if (Capacity() == 0) {
-            setStorage(src.Storage());
-            setSize(src.Size());
-            setCapacity(src.Capacity());
+            setStorage(src_storage);
+            setSize(src_size);
+            setCapacity(src_capacity);
         } else {
             constexpr SizeT32 type_size = sizeof(Type_T);
-            const SizeT       n_size    = (Size() + src.Size());
+            const SizeT       n_size    = (Size() + src_size);
 
             if (n_size > Capacity()) {
                 resize(n_size);
             }
 
-            Memory::Copy((Storage() + Size()), src.Storage(), (src.Size() * type_size));
-            Memory::Deallocate(src.Storage());
+            Memory::Copy((Storage() + Size()), src_storage, (src_size * type_size));
+            Memory::Deallocate(src_storage);
             setSize(n_size);
         }
-
-        src.clearStorage();
-        src.setSize(0);
-        src.setCapacity(0);
     }
 
     void operator+=(const Array &src) {
-        const SizeT size     = Size();
-        const SizeT src_size = src.Size();
-        const SizeT n_size   = (size + src_size);
+        const SizeT   size     = Size();
+        const SizeT   src_size = src.Size();
+        const SizeT   n_size   = (size + src_size);
+        const bool    is_self  = (&src == this);
+        // src can be an array held by one of the elements: growing relocates the elements
+        // (not their own storage), so the source is read before resizing.
+        const Type_T *src_item = src.First();
 
         if (n_size > Capacity()) {
             resize(n_size);
         }
 
-        // src can be this array: its storage is read after resizing, its size before.
-        Type_T       *storage  = (Storage() + size);
-        const Type_T *src_item = src.First();
-        const Type_T *src_end  = (src_item + src_size);
+        if (is_self) {
+            // src is this array: its items are in the new storage.
+            src_item = First();
+        }
+
+        Type_T       *storage = (Storage() + size);
+        const Type_T *src_end = (src_item + src_size);
 
         while (src_item < src_end) {
             Memory::Initialize(storage, *src_item);
